@@ -364,8 +364,13 @@ func checkC16(c *core.Ctx) {
 	})
 
 	// ---- a very deep inheritance chain (the depth of `extends` is not bounded by the property)
-	c.Stream("deepchain", c.N(6, 60), func(i int, r *rand.Rand) {
+	c.Stream("deepchain", c.N(10, 80), func(i int, r *rand.Rand) {
 		depth := 20 + r.Intn(120)
+		// every other chain consists of chords whose symbol is spelled like their name (one lookup key per chord)
+		sameName := i%2 == 1
+		if sameName {
+			depth = 60 + r.Intn(140)
+		}
 		var as []userAttr
 		var cs []userChord
 		var semis []int
@@ -374,6 +379,9 @@ func checkC16(c *core.Ctx) {
 			s, _ := theory.Size(1+j%13, map[bool]theory.Quality{true: theory.Perfect, false: theory.Major}[(j%13)%7 == 0 || (j%13)%7 == 3 || (j%13)%7 == 4])
 			semis = append(semis, s)
 			uc := userChord{Name: fmt.Sprintf("Zdeep%d", j), Display: fmt.Sprintf("zdeep%d", j), Attrs: []string{fmt.Sprintf("Zd%d", j)}}
+			if sameName {
+				uc.Display = uc.Name
+			}
 			if j > 0 {
 				uc.Extends = fmt.Sprintf("Zdeep%d", j-1)
 			}
@@ -385,7 +393,10 @@ func checkC16(c *core.Ctx) {
 			}
 		}
 		args := []string{"--attr", c.Scratch.File("deep-attr.yml", attrsYAML(as)), "--chord", c.Scratch.File("deep-chord.yml", chordsYAML(cs))}
-		leaf := fmt.Sprintf("zdeep%d", depth-1)
+		leaf := cs[0].Display
+		if cs[0].Extends == "" {
+			leaf = cs[len(cs)-1].Display
+		}
 		got, _, why, det := soundedKeys(c, leaf, args)
 		if why == "infra" {
 			return
@@ -404,6 +415,60 @@ func checkC16(c *core.Ctx) {
 		}
 		c.Seen("chain_depths", fmt.Sprint(depth))
 		c.Nontrivial(fmt.Sprintf("deep%d", depth))
+	})
+
+	// ---- a dictionary file that is not a regular file (a pipe reached through /dev/stdin: no size, no seeking)
+	c.Stream("devstdin", c.N(60, 1000), func(i int, r *rand.Rand) {
+		f := genForest(r, fmt.Sprint(i%10))
+		uc := f.chords[r.Intn(len(f.chords))]
+		want := f.semis[uc.Name]
+		for _, s := range want {
+			if 60+s > 127 {
+				return
+			}
+		}
+		sym := []string{uc.Name, uc.Display}[r.Intn(2)]
+		p := model.Piece{Inst: []model.Instance{{Chord: &model.ChordSpec{Deg: theory.Interval{N: 1, Q: theory.Perfect}, Symbol: sym}, Values: one()}}}
+		doc := c.Scratch.File("in.yml", p.YAML(model.YAMLStyle{}))
+		var args []string
+		var stdin []byte
+		if i%2 == 0 {
+			args = []string{"write", "--attr", c.Scratch.File("attr.yml", attrsYAML(f.attrs)), "--chord", "/dev/stdin", doc}
+			stdin = chordsYAML(f.chords)
+		} else {
+			args = []string{"write", "--attr", "/dev/stdin", "--chord", c.Scratch.File("chord.yml", chordsYAML(f.chords)), doc}
+			stdin = attrsYAML(f.attrs)
+		}
+		res := run(c, stdin, args...)
+		c.Eval(1)
+		if infra(c, res) {
+			return
+		}
+		det := map[string]any{"run": obs(res), "stdin": short(string(stdin), 1500)}
+		if a := abnormal(res); a != "" || !res.OK() {
+			c.Violate("devstdin", i, "devstdin:refused", fmt.Sprintf("a consistent dictionary whose file arrives through a pipe (/dev/stdin): chord %q cannot be played %s", sym, a), det)
+			return
+		}
+		file, derr := decodeSMF(res.Stdout)
+		if file == nil {
+			c.Violate("devstdin", i, "devstdin:decode", "output cannot be decoded: "+derr, det)
+			return
+		}
+		var got []int
+		for _, e := range mergedEvents(file) {
+			if e.Kind == smfdec.NoteOn {
+				got = append(got, e.Key())
+			}
+		}
+		exp := []int{48}
+		for _, s := range want {
+			exp = append(exp, 60+s)
+		}
+		if !eqInts(sortedInts(got), sortedInts(exp)) {
+			c.Violate("devstdin", i, "devstdin:notes", fmt.Sprintf("dictionary through a pipe: chord %q sounds %v, defined as %v", sym, sortedInts(got), sortedInts(exp)), det)
+			return
+		}
+		c.Nontrivial(fmt.Sprintf("devstdin%d", i))
 	})
 
 	// ---- user dictionaries
@@ -446,6 +511,9 @@ func genForest(r *rand.Rand, tag string) forest {
 	usedAttr := map[string]map[string]bool{}
 	for j := 0; j < nc; j++ {
 		uc := userChord{Name: fmt.Sprintf("Zc%s%d", tag, j), Display: fmt.Sprintf("zc%s%d", tag, j)}
+		if r.Intn(6) == 0 {
+			uc.Display = uc.Name // a symbol spelled like the name
+		}
 		used := map[string]bool{}
 		var base []int
 		if j > 0 && r.Intn(4) != 0 {
